@@ -31,7 +31,7 @@ def run(ctx):
     ss += S.generate(ctx, 5 if ctx.quick else 25, 8 if ctx.quick else 20, max_e=5, max_loops=3, routings_per_graph=1, kinds=("uniform",),
                      names=["tadpole", "tadpole_pair", "triangle_tadpole", "sunrise_tadpole"])
     ss += S.generate(ctx, 0, 3 if ctx.quick else 6, routings_per_graph=1, kinds=("uniform",),
-                     special=("integer_dod:4", "integer_dod:2", "integer_dod:3", "integer_dod:6") * (1 if ctx.quick else 4))
+                     special=("integer_dod:4", "integer_dod:2", "integer_dod:3", "integer_dod:6", "vacuum_massless", "vacuum_massless", "vacuum") * (1 if ctx.quick else 4))
     S.run(ss)
     SC.corr_perm(ctx, ss)
     SC.generic_scalar_guard(ctx, ss[:: 9], k=8)
